@@ -393,7 +393,7 @@ func (c *Ctx) checkPre(st *State, fr *Frame, fc *FuncContract, f *ssa.Function, 
 	env := c.calleeEnv(st, st, fr, tgt)
 	c.bindLets(env, fc)
 	for _, cl := range fc.Clauses {
-		if cl.Kind != "requires" {
+		if cl.Kind != "requires" || cl.Assumed {
 			continue
 		}
 		env.goal = true
@@ -418,7 +418,7 @@ func (c *Ctx) applyContract(st *State, fr *Frame, fc *FuncContract, tgt callTarg
 		env.vars[g.Name] = c.fresh("ghost_"+g.Name, c.V.sortOfTypeName(g.Type))
 	}
 	for _, cl := range fc.Clauses {
-		if cl.Kind != "requires" {
+		if cl.Kind != "requires" || cl.Assumed {
 			continue
 		}
 		env.goal = true
